@@ -18,6 +18,22 @@ from .. import common as C
 
 PROP = "C05"
 
+
+def eval_cases_private(prop, header, checks):
+    """C.eval_cases with scratch file names that are unique per process (concurrent runs of the same check, e.g.
+    against different VERIF_REPO trees, must not overwrite each other's cases files); files removed afterwards."""
+    import glob
+    import os
+    name = "corr_p%d" % os.getpid()
+    try:
+        return C.eval_cases(prop, name, header, checks)
+    finally:
+        for fn in glob.glob(os.path.join(C.run_dir(prop), "*cases_%s_*" % name)):
+            try:
+                os.remove(fn)
+            except OSError:
+                pass
+
 TOTAL_PTW = ["tanh", "sin", "cos", "sigmoid", "arctan", "exp", "softplus", "sinc"]
 
 
@@ -26,9 +42,21 @@ TOTAL_PTW = ["tanh", "sin", "cos", "sigmoid", "arctan", "exp", "softplus", "sinc
 # ======================================================================================================
 # A DAG is a list of node descriptions; node i may refer to nodes j < i (the SAME object is reused):
 #   ["var", key] ["ptw", name, j] ["adder", [values], j] ["scale", c, j] ["diag", [values], j] ["sum", j, k] ["prod", j, k]
+#   ["app", i, j]: the operator INSTANCE number i of the case's "insts" list (["ptw", name] / ["adder", [values]])
+#                  applied to node j -- the same instance may be applied to several different nodes / input keys
 # The last node is the root.
 
-def gen_dag(rng, n, keys, size, linear_ok=False):
+def gen_insts(rng, n):
+    out = []
+    for _ in range(int(rng.integers(1, 4))):
+        if rng.random() < 0.7:
+            out.append(["ptw", TOTAL_PTW[int(rng.integers(0, len(TOTAL_PTW)))]])
+        else:
+            out.append(["adder", [float(rng.uniform(-1, 1)) for _ in range(n)]])
+    return out
+
+
+def gen_dag(rng, n, keys, size, linear_ok=False, insts=()):
     """linear_ok=False: only nonlinear unary operators (pointwise functions, Adder).  With linear ones (scaling,
     diagonal) a shared definition can be a purely linear chain, for which `FieldAdapter.adjoint(def) + identity` is
     built from NEW simplified ChainOperator/SumOperator objects (scalings commuted and merged) that have no
@@ -38,6 +66,13 @@ def gen_dag(rng, n, keys, size, linear_ok=False):
     nonlin = []                          # SumOperator/ChainOperator leaves, which the optimiser ignores)
     for _ in range(size):
         r = int(rng.integers(0, 10))
+        if insts and rng.random() < 0.35:
+            # one operator instance on (possibly) several inputs: prefer the FieldAdapters as arguments
+            j = int(rng.integers(0, len(keys))) if rng.random() < 0.7 else int(rng.integers(0, len(nodes)))
+            nodes.append(["app", int(rng.integers(0, len(insts))), j])
+            linear.append(False)
+            nonlin.append(len(nodes) - 1)
+            continue
         if r in (3, 4) and not linear_ok:
             r = int(rng.integers(0, 3))
         if not nonlin or r < 3:
@@ -62,11 +97,16 @@ def gen_dag(rng, n, keys, size, linear_ok=False):
     return nodes
 
 
-def build(ift, dom, nodes):
+def build(ift, dom, nodes, insts=()):
     """Instantiate the DAG: every node is ONE Python object (shared when referenced twice)."""
+    from nifty.cl.operators.operator import _FunctionApplier
+    iobj = [(_FunctionApplier(dom, i[1]) if i[0] == "ptw" else ift.Adder(ift.Field.from_raw(dom, np.array(i[1])))) for i in insts]
     objs = []
     for nd in nodes:
         k = nd[0]
+        if k == "app":
+            objs.append(iobj[nd[1]] @ objs[nd[2]])
+            continue
         if k == "var":
             o = ift.FieldAdapter(dom, nd[1])
         elif k == "ptw":
@@ -261,7 +301,7 @@ def run_case(case, npoints, seed):
     import nifty.cl as ift
     n, keys, nodes = case["n"], case["keys"], case["nodes"]
     dom = ift.DomainTuple.make(ift.UnstructuredDomain(n))
-    op = build(ift, dom, nodes)
+    op = build(ift, dom, nodes, case.get("insts", ()))
     rng = np.random.default_rng([seed, 55])
     with ift.random.Context(int(seed) + 17):
         try:
@@ -301,10 +341,11 @@ class C05(C.Check):
             tries += 1
             n = int(rng.integers(1, 4))
             keys = ["a", "b", "c"][:int(rng.integers(1, 4))]
-            nodes = gen_dag(rng, n, keys, int(rng.integers(4, 14)))
+            insts = gen_insts(rng, n) if tries % 2 == 0 else []
+            nodes = gen_dag(rng, n, keys, int(rng.integers(4, 14)), insts=insts)
             if nodes[-1][0] not in ("sum", "prod") and rng.random() < 0.7:
                 continue
-            cases.append({"kind": "dag", "n": n, "keys": keys, "nodes": nodes})
+            cases.append({"kind": "dag", "n": n, "keys": keys, "nodes": nodes, "insts": insts})
         return cases
 
     def gen_linear_cases(self, ctx, want):
@@ -313,9 +354,10 @@ class C05(C.Check):
         while len(out) < want:
             n = int(rng.integers(1, 4))
             keys = ["a", "b", "c"][:int(rng.integers(1, 4))]
-            nodes = gen_dag(rng, n, keys, int(rng.integers(4, 14)), linear_ok=True)
+            insts = gen_insts(rng, n) if len(out) % 2 == 0 else []
+            nodes = gen_dag(rng, n, keys, int(rng.integers(4, 14)), linear_ok=True, insts=insts)
             if nodes[-1][0] in ("sum", "prod") and any(nd[0] in ("scale", "diag") for nd in nodes):
-                out.append({"kind": "dag", "n": n, "keys": keys, "nodes": nodes})
+                out.append({"kind": "dag", "n": n, "keys": keys, "nodes": nodes, "insts": insts})
         return out
 
     def correspondence(self, ctx, res):
@@ -347,7 +389,7 @@ class C05(C.Check):
                 changed += 1
             checks.append("equivb %s %s %s" % (ks, cg(go), cg(gp)))
             meta.append((ci, "validator"))
-        bad = C.eval_cases(self.prop, "corr", HEADER, checks)
+        bad = eval_cases_private(self.prop, HEADER, checks)
         for i in bad[:4]:
             ci, how = meta[i]
             res.add_broken("correspondence", "validator rejects (original, optimised)" if how == "validator" else how,
@@ -360,6 +402,7 @@ class C05(C.Check):
                     "distinct by DAG description; per DAG: validator verdict on (exported original, exported optimised)",
             "samples": [c["nodes"] for c in cases[1:3]],
             "input_distribution": {"graphs_changed_by_the_optimiser": changed, "export_unsupported": skipped,
+                                   "one_instance_on_two_keys": sum(1 for c in cases if multi_key_instance(c)),
                                    "shared_nodes_histogram": _hist([sharing(c["nodes"]) for c in cases])},
             "disagreements": len(bad), "exhaustive": False,
         })
@@ -398,6 +441,15 @@ class C05(C.Check):
         if f:
             print("  still fails: %s: %s" % (f[0], f[1]))
         return f is not None
+
+
+def multi_key_instance(c):
+    """some operator instance is applied directly to two different FieldAdapters"""
+    seen = {}
+    for nd in c["nodes"]:
+        if nd[0] == "app" and c["nodes"][nd[2]][0] == "var":
+            seen.setdefault(nd[1], set()).add(c["nodes"][nd[2]][1])
+    return any(len(v) > 1 for v in seen.values())
 
 
 def sig(f):
